@@ -189,12 +189,14 @@ static KV genCase()
     // The across-origin closure replaces the hole of radius R0 by a stencil through the origin: it is consistent with
     // the problem on the full disk only for R0 -> 0 (an O(R0)-dependent modelling error otherwise masks the
     // discretisation order), so it is judged with the small R0 it is meant for; a Dirichlet interior boundary is exact.
-    s.R0 = s.dirbc ? s.Rmax * rpick({1e-5, 1e-3, 1e-2, 0.1}) : s.Rmax * rpick({1e-5, 1e-6, 1e-8});
+    s.R0 = s.dirbc ? s.Rmax * rpick({1e-5, 1e-3, 1e-2, 0.1, 0.3, 0.5}) : s.Rmax * rpick({1e-5, 1e-6, 1e-8}); // incl. annuli (few, clamped smoother circles)
     s.nr_exp     = 4;
     s.ntheta_exp = -1;
     // "uniform refinement" is divideBy2 applied to the base grid; the base grid itself may be anisotropic (refined by
     // anisotropic_factor around the profile's steep region): a third of the cases
     s.aniso = rweighted({2, 1});
+    if (s.R0 >= 0.25 * s.Rmax)
+        s.aniso = 0; // the refined window around the profile's steep region does not fit into a thick annulus
     const char* t = getenv("VERIF_TIER");
     const bool thorough = t && std::string(t) == "thorough";
     // refinement pair k -> k+1; finest 129x256 (quick) or 257x512 (thorough; across-origin with tiny R0 stays at 129)
